@@ -15,6 +15,7 @@
 (*           is running (between player_turn_ended and player_turn_started, before the first turn, or   *)
 (*           with no game): it must be refused.                                                         *)
 (*   evs     ghost: the player_<var> events of the last step as <<var, value, prev, change, player>>    *)
+(*   nops/nadv/ngames/bops  budgets (bops: steps within the current ball or pause between turns)         *)
 (* machine modelled (drivers/c11.py write_machine): gm1 starts on ball_starting (c1 counter goal 3      *)
 (* disable_on_complete, a1 accrual of 2, q1 sequence of 2 reset+disable on complete, shots 1/2 in a     *)
 (* group with a 3-state non-looping profile and persisted enable, achievement, variable_player);        *)
